@@ -35,7 +35,7 @@ var (
 	minimizeWall  = 90 * time.Second // minimisation is a convenience: time-boxed, the unminimised case is a valid replay too
 )
 
-// ---- known findings: signature -> id, read from known.d (the "match" field carries the signatures) -------------
+// ---- known findings: signature -> id, read from known_findings.json (the "match" field carries the signatures) -------------
 
 var (
 	knownOnce sync.Once
